@@ -17,18 +17,35 @@ type gate struct {
 	ch     chan struct{}
 	open   bool
 	parked int32
-	lagUs  int // how long a released / cancelled call dawdles before returning
+	lagUs  int            // how long a released / cancelled call dawdles before returning
+	at     map[uint64]int // height -> calls currently parked for that height
 }
 
-func newGate() *gate { return &gate{ch: make(chan struct{})} }
+func newGate() *gate { return &gate{ch: make(chan struct{}), at: map[uint64]int{}} }
 
-func (g *gate) wait(ctx context.Context) {
+func (g *gate) wait(ctx context.Context) { g.waitAt(ctx, 0) }
+
+// parkedAtOrBelow: calls still parked for a height <= h.
+func (g *gate) parkedAtOrBelow(h uint64) int {
+	g.mu.Lock()
+	defer g.mu.Unlock()
+	n := 0
+	for hh, c := range g.at {
+		if hh <= h {
+			n += c
+		}
+	}
+	return n
+}
+
+func (g *gate) waitAt(ctx context.Context, h uint64) {
 	g.mu.Lock()
 	if g.open {
 		g.mu.Unlock()
 		return
 	}
 	ch := g.ch
+	g.at[h]++
 	g.mu.Unlock()
 	atomic.AddInt32(&g.parked, 1)
 	select {
@@ -36,6 +53,9 @@ func (g *gate) wait(ctx context.Context) {
 	case <-ch:
 	}
 	atomic.AddInt32(&g.parked, -1)
+	g.mu.Lock()
+	g.at[h]--
+	g.mu.Unlock()
 	if g.lagUs > 0 {
 		time.Sleep(time.Duration(g.lagUs) * time.Microsecond)
 	}
@@ -76,14 +96,17 @@ func RunSync(seed int64, idx int) *Result {
 	parkKinds := rng.Intn(8) // bit 0: RequestNewBlockProposal, bit 1: RequestOrderedCommittee, bit 2: commit callback (unused here)
 	nd.BU.OnRequest = func(ctx context.Context, h uint64) {
 		if parkKinds&1 != 0 {
-			g.wait(ctx)
+			g.waitAt(ctx, h)
 		}
 	}
 	nd.Mem.OnRequest = func(ctx context.Context, h uint64) error {
 		if parkKinds&2 != 0 {
-			g.wait(ctx)
+			g.waitAt(ctx, h)
 		}
-		return nil
+		return ctx.Err() // a contract that reports the cancellation of its request
+	}
+	if parkKinds&4 != 0 {
+		nd.BlockCommit = func(ctx context.Context, h uint64) { g.waitAt(ctx, h) }
 	}
 	desc := fmt.Sprintf("single node n00 (leader of view 0), parkKinds=%03b lag=%dus logDelays=%d", parkKinds, g.lagUs, len(delays))
 	nd.Start()
@@ -180,6 +203,23 @@ func RunSync(seed int64, idx int) *Result {
 				return net.result("sync", idx, seed, desc)
 			}
 			net.count("C14 UpdateState calls")
+		}
+		// "even while the worker is inside a long SPI call": the sync itself (not the harness) must release every call that
+		// waits on the context of a height at or below the synced block
+		if eligible {
+			nd.Barrier()
+			released := false
+			for i := 0; i < 20000; i++ {
+				if g.parkedAtOrBelow(want-1) == 0 {
+					released = true
+					break
+				}
+				time.Sleep(100 * time.Microsecond)
+			}
+			net.count("C14 releases judged")
+			if !released {
+				net.violate("C14", "sync-did-not-release-the-blocked-spi-call", "UpdateState heights %v returned nil (node was deciding height %d) but an SPI call waiting on the context of a height <= %d is still blocked 2 s after the main loop handled the sync", hs, h0, want-1)
+			}
 		}
 		if !quiesce() {
 			break
